@@ -141,7 +141,11 @@ pub fn run_prompt(args: Vec<String>) {
                     if let Err(err) = err {
                         errln!("{}", err);
                         globals = vm.globals;
+                        // its names go, its global slots do not: a closure it created and
+                        // stored before failing still refers to them
+                        let used = symtab.get_num_definitions();
                         symtab = before;
+                        symtab.reserve_definitions(used);
                         break;
                     }
                     // Get the object at the top of the VM's stack
